@@ -38,6 +38,7 @@ type Node struct {
 	outputWriter *os.File
 	outputReader *os.File
 	scriptFile   *os.File
+	scriptArg    string // script path appended to the step's args by the previous attempt
 	done         bool
 }
 
@@ -178,7 +179,13 @@ func (n *Node) setupExec(ctx context.Context) (executor.Executor, error) {
 	if n.scriptFile != nil {
 		var args []string
 		args = append(args, n.data.Step.Args...)
-		n.data.Step.Args = append(args, n.scriptFile.Name())
+		// A repeated or retried attempt must not keep the script path an
+		// earlier attempt appended (that file may be gone by now).
+		if k := len(args); k > 0 && n.scriptArg != "" && args[k-1] == n.scriptArg {
+			args = args[:k-1]
+		}
+		n.scriptArg = n.scriptFile.Name()
+		n.data.Step.Args = append(args, n.scriptArg)
 	}
 
 	cmd, err := executor.NewExecutor(ctx, n.data.Step)
